@@ -17,7 +17,7 @@ MANIFEST = {
                  "replace_and_simplify / DeMorganSimplifier / PostfixLogicBuilder / LogicStack / "
                  "InternalSurfaceFlagger; differential correspondence model vs real classes on "
                  "structured op scripts; exhaustive truth-table oracle on the real code",
-    "text": "Theorems over the model (Props/C10.lean, 37 obligations) for all trees, nodes and "
+    "text": "Theorems over the model (Props/C10.lean, 39 obligations) for all trees, nodes and "
             "sense assignments, no size bound: (a) the 32-bit LogicStack evaluator refines the "
             "list-stack reference for every well-formed logic with calc_max_depth <= 32 (bound "
             "shown sharp at 33), calc_max_depth bounds the stack at every point; (b) the logic "
@@ -34,7 +34,16 @@ MANIFEST = {
             "tree satisfies the invariant, every volume keeps its denotation and no negated join "
             "remains; (f) a node flagged `simple` is a constant times a conjunction of surface "
             "literals when no negation points through aliases at a join (hypothesis shown "
-            "necessary); END-TO-END (reachable_preserves / reachable_postfix_correct / "
+            "necessary); the RUNTIME flag the tracker reads (runtimeFlag_sound / "
+            "runtimeFlag_sound_proto: UnitProto::build -> UnitInserter::insert_volume / "
+            "process_daughter -> VolumeView::internal_surfaces never clear the bit, the forced-limit "
+            "replacement logic is constant false; flag values and statement texts regenerated and "
+            "pattern-checked), tied to the real OrangeParams by harness/csgrt.cc: every bundled "
+            "test/orange/data/*.org.json and API-built geometries with daughters in convex and "
+            "non-convex parents, nested universes, arrays and background volumes are loaded, every "
+            "VolumeRecord's flags are diffed with the model and every volume with "
+            "internal_surfaces unset must have a stored logic that is a conjunction of literals "
+            "(exhaustive table); END-TO-END (reachable_preserves / reachable_postfix_correct / "
             "reachable_infix_correct): for every tree in the closure of the empty tree under "
             "insert, insert_volume, replace_and_simplify, simplify(tree,start) and "
             "transform_negated_joins, every volume keeps the value it was declared with and its "
